@@ -74,6 +74,7 @@ def specified_rules(prog):
 
 
 def check(prog, run):
+    check_allowed_position_table(prog, run, "V1")
     check_parent_exclusivity(prog, run, "E1")
     rcs = rule_classes(prog)
     spec = specified_rules(prog)
@@ -739,3 +740,76 @@ def cycle_search_functions(nf):
                     out.append(m)
                     todo.append(m)
     return out
+
+
+def check_allowed_position_table(prog, run, rule_id):
+    """The verdict of VariablesInAllowedPosition, row by row."""
+    from .. import boolx
+    import re
+    r = run.rule(rule_id, "VariablesInAllowedPositionChecker, the check of one usage decided for all 256 assignments of (location type is NonNull, "
+                          "variable type is NonNull, the variable has a default, that default is not the null literal, the location has an "
+                          "input definition, that definition has a default, variable type is a subtype of the location's nullable type, of the "
+                          "location type): an error is recorded exactly when - for a nullable variable in a NonNull position - there is "
+                          "neither a non-null variable default nor a location default, or the variable type does not fit the nullable type; "
+                          "otherwise exactly when the variable type does not fit the location type (the specification's "
+                          "AreTypesCompatible / allowed-position rule)", 256)
+    rcs = rule_classes(prog)
+    va = rcs.get("VariablesInAllowedPositionChecker")
+    ld = va.methods.get("leave_document") if va else None
+    if ld is None:
+        raise AnalysisError("C06.%s: VariablesInAllowedPositionChecker.leave_document not found" % rule_id)
+    run.looked_at(ld)
+    loops = [n for n in own_nodes(ld.node) if isinstance(n, ast.For) and any(
+        isinstance(x, ast.Call) and isinstance(x.func, ast.Attribute) and x.func.attr == "iter_op_variables" for x in ast.walk(n.iter))]
+    if len(loops) != 1:
+        raise AnalysisError("C06.%s: the loop over the usages of an operation's variables was not found" % rule_id)
+    body = boolx.body_function(loops[0].body)
+    pats = [
+        ("A", re.compile(r"^isinstance\((\w*input_type\w*|\w*location_type\w*|\w*expected\w*), (\w+\.)?NonNullType\)$")),
+        ("B", re.compile(r"^isinstance\((\w*var_type\w*|\w*variable_type\w*), (\w+\.)?NonNullType\)$")),
+        ("d1", re.compile(r"^(\w*var_default\w*|\w+\.default_value) is None$")),          # canonical form of `is not None`
+        ("d2", re.compile(r"^type\((\w*var_default\w*|\w+\.default_value)\) (==|is) (\w+\.)?NullValue$|^isinstance\((\w*var_default\w*|\w+\.default_value), (\w+\.)?NullValue\)$")),
+        ("l1", re.compile(r"^\w*input_value_def\w* is None$")),
+        ("l2", re.compile(r"^\w*input_value_def\w*\.has_default_value$")),
+        ("S1", re.compile(r"^[\w.]+\.is_subtype\(\w+, \w+\.type\)$")),
+        ("S2", re.compile(r"^[\w.]+\.is_subtype\(\w+, \w+\)$")),
+    ]
+    import itertools
+    bad, rows, seen_atoms = [], 0, set()
+    for combo in itertools.product((True, False), repeat=8):
+        A, B, hasdef, nonnull_lit, hasloc, locdef, S1, S2 = combo
+        val = {"A": A, "B": B, "d1": not hasdef, "d2": not nonnull_lit, "l1": not hasloc, "l2": locdef, "S1": S1, "S2": S2}
+
+        def decide(t, val=val):
+            for name, p in pats:
+                if p.match(t):
+                    seen_atoms.add(name)
+                    return val[name]
+            if re.match(r"^\w*vardef\w*$|^\w*input_type\w*$|^\w*var_def\w*$", t):
+                return True
+            return None
+        try:
+            _ev, exits = boolx.walk_under(body, decide)
+        except ValueError as e:
+            raise AnalysisError("C06.%s: %s" % (rule_id, e))
+        outcomes = set()
+        for kind, st, env in exits:
+            if env.get(boolx.HANDLERS):
+                continue        # the variable's declared type is unknown: reported by another rule
+            outcomes.add(any(isinstance(c.func, ast.Attribute) and c.func.attr == "add_error" for c in env.get(boolx.CALLS, ())))
+        D = hasdef and nonnull_lit
+        Lc = hasloc and locdef
+        want = ((not D and not Lc) or not S1) if (A and not B) else (not S2)
+        rows += 1
+        if outcomes != {want}:
+            bad.append({"location_nonnull": A, "variable_nonnull": B, "variable_default": hasdef, "default_not_null": nonnull_lit,
+                        "location_definition": hasloc, "location_default": locdef, "fits_nullable": S1, "fits": S2,
+                        "error_recorded": sorted(outcomes), "expected": want})
+    for i in range(rows):
+        r.instance("row %d" % i, nontrivial=False)
+    missing = {"A", "B", "d1", "l2", "S1", "S2"} - seen_atoms
+    if missing and not bad:
+        raise AnalysisError("C06.%s: the tests %s of the allowed-position check were not recognised" % (rule_id, sorted(missing)))
+    if bad:
+        run.report(r, "%s:VariablesInAllowedPositionChecker.leave_document:allowed-position-table" % RULES, ld.where(loops[0]),
+                   "the allowed-position verdict is wrong on %d of 256 rows, e.g. %s" % (len(bad), bad[0]), {"rows": bad[:12]})
